@@ -414,6 +414,7 @@ theorem feed_prefix (more : List Ev) : ∀ st : List Nat × List Nat, ∃ y, (mo
     | shutdown _ => exact ⟨y, by rw [hy]; simp [feed]⟩
     | complete _ => exact ⟨y, by rw [hy]; simp [feed]⟩
     | sendRequest => exact ⟨y, by rw [hy]; simp [feed]⟩
+    | resolve _ => exact ⟨y, by rw [hy]; simp [feed]⟩
 
 /-! ### `accept` answers `None` only when drained -/
 
@@ -606,6 +607,9 @@ theorem step_progress (s : State) (e : Ev) :
     by_cases hc : s.closing = true
     · simp [hc, progressStep, surfacedIn]
     · simp [hc, progressStep, surfacedIn]
+  | resolve id =>
+    simp only [step]
+    split <;> simp [progressStep, surfacedIn]
 
 theorem inProgress_snoc (pre : List (Ev × List Obs)) (st : Ev × List Obs) :
     inProgress (pre ++ [st]) = progressStep (inProgress pre) st := by
